@@ -16,9 +16,10 @@ from engine import world
 MODES = ["disabled", "auto", "teleop", "test"]
 WORDS = {"disabled": (False, False, False), "auto": (True, True, False), "teleop": (True, False, False),
          "test": (True, False, True)}
-# all 8 raw words -> the mode the statement assigns to it (thorough)
+# raw control words -> the mode the statement assigns to them (thorough).  The driver station's mode selector is
+# exclusive: autonomous and test are never set together, so those two words are not driver-station states.
 RAW_WORDS = [((e, a, t), ("disabled" if not e else "auto" if a else "test" if t else "teleop"))
-             for e in (False, True) for a in (False, True) for t in (False, True)]
+             for e in (False, True) for a in (False, True) for t in (False, True) if not (a and t)]
 
 
 class Boom(Exception):
